@@ -39,7 +39,7 @@ def main(job):
             cnt['n'] += 1
             if len(cnt['samples']) < 3:
                 cnt['samples'].append(ops)
-            msg = sched.sequence_run(hszinc, ops, job.get('capacity', 2))
+            msg = sched.sequence_run(hszinc, ops, job.get('capacity', 2), job.get('family', 1))
             return ('cex', msg, ops) if msg else ('ok',)
 
         def on_result(r, ex):
